@@ -6,7 +6,12 @@ Tie: correspondence between the model's executable definitions (Frame/SliceRun.v
 and dasp_slice's public API for N = 1..=32 x L = 0..3N+1 x {u8,i16,f32,I24,u64}: Some/None, lengths,
 contents, pointer identity as same/different, stores through mutable views seen in the original,
 live-heap-byte deltas around boxed conversions (counting GlobalAlloc), and every length pair <= 6
-of the two-slice operations with the destination before/after a caught panic."""
+of the two-slice operations with the destination before/after a caught panic.
+`W` cases: every in-place operation over ALL FOURTEEN sample formats x {bare sample, [S;2], [S;3]} with the C03 model
+of the frame operations (Sample/SampleOps.v, Frame/FrameOps.v) as the element-wise reference (Frame/SliceRunW.v over
+the fallible loops of Frame/SliceFallible.v): every special-cased gain (0, -0, 1, -1, 0.5, 2, 1 +- ulp) on all
+channels and mixed per channel x boundary-structured and off-float-grid samples, in the dev build (Checked model),
+the release build (Wrapping model) and relchk.  `I` cases: the identity impls and the free-function boxed forms."""
 import json, os, struct
 import framework as F
 import floatbase
@@ -14,8 +19,8 @@ import floatbase
 PROP = "C10"
 META = dict(
     technique="Coq proof over a memory/reference/ownership-ledger model of dasp_slice + coqc-evaluated model vs crate correspondence (pointer identity, live heap bytes, panics observed)",
-    text="Machine-checked (Coq 8.16.1) theorems about a model of dasp_slice written after the source (references = data pointer + length over a flat allocation, raw-parts reinterpretation = UB when out of extent, Box hand-over = forget/from_raw/drop on an ownership ledger, zip_map loop with unchecked accesses): for every N >= 1 and every length, the frame view exists iff N | L, has L/N frames, frame i channel c is cell i*N+c of the same allocation, both round trips are the identity, a store through a view is the store at the flat index, boxed conversion reuses the one block (same address, same bytes) and a failed one frees it, zip_map_in_place = map2 and a length mismatch is an assert panic with the destination untouched, derived ops are the element-wise frame op for every frame operation. Tied to the crate by running the same cases through the 32 macro-generated impls x 5 sample formats and comparing Some/None, lengths, contents, pointer identity, live heap bytes and panic/destination snapshots exactly.",
-    note="Trusted: Coq kernel; the hand-written model (slices as address+length over a list, usize as nat, the ledger as the meaning of forget/from_raw/drop) validated only through the correspondence (pointer identity and freeing are observed, not proved about rustc); harness + python generators; Base/Float.v for the f32 add/mul of the per-channel-gain cases (validated against rustc by lib/floatbase.py). Axioms: none.",
+    text="Machine-checked (Coq 8.16.1) theorems about a model of dasp_slice written after the source (references = data pointer + length over a flat allocation, raw-parts reinterpretation = UB when out of extent, Box hand-over = forget/from_raw/drop on an ownership ledger, zip_map loop with unchecked accesses): for every N >= 1 and every length, the frame view exists iff N | L, has L/N frames, frame i channel c is cell i*N+c of the same allocation, both round trips are the identity, a store through a view is the store at the flat index, boxed conversion reuses the one block (same address, same bytes) and a failed one frees it, zip_map_in_place = map2 and a length mismatch is an assert panic with the destination untouched, derived ops are the element-wise frame op for every frame operation. Tied to the crate by running the same cases through the 32 macro-generated impls x 5 sample formats and comparing Some/None, lengths, contents, pointer identity, live heap bytes and panic/destination snapshots exactly. The in-place operations are also proved for a frame operation that can panic (overflow-checked add_amp): the walk stores results front to back, the first panic leaves its frame and all later ones untouched, a total operation gives back the pure model; these run over all 14 sample formats x 3 frame shapes with the C03 model of add_amp/mul_amp/scale_amp/offset_amp as the element-wise reference, for every special-cased gain (0, -0, 1, -1, 0.5, 2, 1 +- ulp; all channels equal and mixed) x boundary-structured and off-float-grid samples, in dev (Checked), release (Wrapping) and relchk builds.",
+    note="Trusted: Coq kernel; the hand-written model (slices as address+length over a list, usize as nat, the ledger as the meaning of forget/from_raw/drop) validated only through the correspondence (pointer identity and freeing are observed, not proved about rustc); harness + python generators; Base/Float.v for the f32 add/mul of the per-channel-gain cases (validated against rustc by lib/floatbase.py); for the W cases the C03 model of the sample operations (generated conversions of C01/C02, companion table, I24/I48 operator model of C15) is the reference for the element-wise frame operation - C10 checks that the slice operations ARE that element-wise operation, C03 checks the operation itself. Axioms: none.",
     design="6/C10")
 HEADER = "From Dasp Require Import Frame.SliceRun Frame.SliceRunW."
 CHECK = "checkx"
@@ -247,6 +252,10 @@ def build(item):
     elif k == "B":
         it["line"] = f"B {it['fmt']} {it['N']} ; {J(it['data'])}"
         it["coq"] = f"CBoxed {F.zlit(it['N'])} {F.zlit(FMT_SIZE[it['fmt']])} {F.zlist(it['data'])}"
+    elif k == "I":
+        it["line"] = f"I {it['fmt']} ; {J(it['data'])}"
+        it["coq"] = f"XI {F.zlit(FMT_SIZE[it['fmt']])} {F.zlist(it['data'])}"
+        return it
     elif k == "W":
         fl = lambda fs: [x for f in fs for x in f]
         it["line"] = f"W {it['op']} {it['fmt']} {it['shape']} ; {J(fl(it['a']))} ; {J(fl(it['b']))} ; {J(it['amp'])} ; {it['k']}"
@@ -319,6 +328,12 @@ def gen_cases(rng, tier):
             items.append(view_case(r, fmt, N, L))
         else:
             items.append(build(dict(kind="B", fmt=fmt, N=N, data=[sample_value(r, fmt) for _ in range(L)])))
+    # the identity impls (samples as samples, frames as frames; shared, mutable, boxed) and the free-function forms
+    # to_boxed_frame_slice / to_boxed_sample_slice: every format x L = 0..7 (and a few longer)
+    for fmt in fmts_all:
+        for L in list(range(0, 8)) + ([33, 64] if tier == "quick" else [33, 64, 127, 256]):
+            r = rng.fork(f"i{fmt}_{L}")
+            items.append(build(dict(kind="I", fmt=fmt, data=[sample_value(r, fmt) for _ in range(L)])))
     n_grid = len(items)
     # 2. in-place operations: every pair of lengths 0..6 for the two-slice operations
     reps = 1 if tier == "quick" else 6
@@ -355,6 +370,8 @@ def nontrivial(it, obs_line):
         if it["kind"] == "V":
             return "7" in obs_line.split(";")
         return False
+    if it["kind"] == "I":
+        return len(it["data"]) % 2 == 1       # the N = 2 free-function boxed conversion fails and frees
     if it["kind"] == "W":   # the frame operation changed the destination, or it panicked, or the assert fired
         parts = obs_line.split(";")
         return len(parts) == 3 and (parts[1].startswith("8") or parts[0] != parts[2])
@@ -394,6 +411,13 @@ def shrink(it, fails):
                     c.update(w1=[min(it["w1"][0], K2), it["w1"][1], 99], w2=[min(it["w2"][0], K2), it["w2"][1], 98],
                              s1=[min(it["s1"][0], K2 * N), 97], s2=[min(it["s2"][0], K2 * N), 96])
                 cands.append(c)
+    elif it["kind"] == "I":
+        for L2 in (0, 1, 2, 3):
+            if L2 < len(it["data"]):
+                c = build(dict(case_fields(it), data=[(i + 1) % 100 for i in range(L2)]))
+                if fails(c):
+                    return c
+        return cur
     elif it["kind"] == "W":
         # one frame pair at a time (the operations are element-wise), then one channel at a time made neutral
         if len(it["a"]) == len(it["b"]) and len(it["a"]) > 1:
@@ -537,7 +561,10 @@ def main(rep, tier, seed):
             "wide": {"unity_gain_all_channels_x_wide_format_x_off_grid_source": 0, "dev_overflow_panics_inside_the_frame_operation": 0}}
     for it, o in zip(items, outl if not errors else [""] * len(items)):
         hist["kind"][it["kind"]] = hist["kind"].get(it["kind"], 0) + 1
-        if it["kind"] in ("V", "B"):
+        if it["kind"] == "I":
+            hist["format"]["I:" + FMT_NAMES[it["fmt"]]] = hist["format"].get("I:" + FMT_NAMES[it["fmt"]], 0) + 1
+            hist["boxed_failures_freed"] += sum(1 for p in o.split(";") if p.startswith("0 -"))
+        elif it["kind"] in ("V", "B"):
             fk = it["kind"] + ":" + FMT_NAMES[it["fmt"]]
             hist["format"][fk] = hist["format"].get(fk, 0) + 1
             hist["N"][str(it["N"])] = hist["N"].get(str(it["N"]), 0) + 1
@@ -608,13 +635,23 @@ def finish(rep, info, n, nontriv, dist, samples, bad=()):
             "modelled, not verified: a slice reference as (address, length) over a list of cells, usize as nat (no length near 2^64), "
             "mem::forget / Box::from_raw / drop as transitions of an ownership ledger; pointer identity and freeing are tied to the "
             "crate only by the observations (same/different data pointer, live heap bytes from a counting GlobalAlloc)",
-            "Base/Float.v (Flocq BinarySingleNaN) for f32 add/mul in the add_in_place cases, validated against rustc by lib/floatbase.py"],
+            "Base/Float.v (Flocq BinarySingleNaN) for f32 add/mul in the add_in_place cases, validated against rustc by lib/floatbase.py",
+            "W cases: the C03 model of Sample::{add_amp, mul_amp} / Frame::{add_amp, mul_amp, scale_amp, offset_amp, EQUILIBRIUM} (Sample/SampleOps.v, "
+            "Frame/FrameOps.v, generated conversion and companion tables) as the element-wise reference; validated by C03's own correspondence"],
         "theorems": th, "axioms_reported": info.get("axioms", []),
         "evaluations": n, "distinct_nontrivial": nontriv,
         "rule": "every N in 1..=32 x every L in 0..3N+1 for the view case and the boxed case (quick: one of the 5 sample formats per (N,L), "
                 "rotating so that every N meets every format and both divisible and non-divisible L; thorough: all 5), plus long slices; "
-                "every (op, frame format) x every length pair 0..6 x 0..6; non-trivial = N >= 2 and L not a multiple of N (the divisibility "
-                "test fails), or a store through a mutable view completed, or the two slices of a two-slice operation differ in length",
+                "every (op, frame format) x every length pair 0..6 x 0..6; the identity impls + free-function boxed forms for every format x L = 0..7, 33, 64; "
+                "W: every one of the 14 sample formats x {bare, [S;2], [S;3]} x {add_in_place_with_amp_per_channel with each special gain "
+                "(1, 0, -1, 0.5, -0, 2, 1-ulp, 1+ulp) on ALL channels, special gains mixed per channel, random gains; zip_map_in_place with an "
+                "add_amp(scale_amp(g)) closure for g in 1, 0, -1, 0.5, random; add_in_place (plain, range ends, zero source); write; equilibrium; "
+                "map_in_place with offset_amp(k); one length mismatch}, samples from the boundary-structured set (MIN, MAX, equilibrium +-1, "
+                "+-2^k +-1, values off the float companion's grid, small, uniform), 1..3 frames; each W case in dev vs the Checked model, in release vs the "
+                "Wrapping model, and in relchk vs dev (I24/I48 with a dev panic: vs release); the 32/64-bit formats and I48/U48 get every gain pattern twice. "
+                "non-trivial = N >= 2 and L not a multiple of N (the divisibility "
+                "test fails), or a store through a mutable view completed, or the two slices of a two-slice operation differ in length, or a W case whose "
+                "operation changed the destination or panicked, or an I case of odd length (the N = 2 boxed conversion fails and frees)",
         "samples": samples, "input_distribution": dist, "disagreements": len(bad),
         "explanation": "theorems: for all N >= 1 and all lists, over an explicit memory/reference/ledger model; tie: the model's executable "
                        "definitions run by coqc on the same cases as the real crate, all observations compared exactly",
